@@ -147,7 +147,16 @@ def corrupt_javashapes(recs):
     return i
 
 
-SUITES = [("frontsderive", corrupt_frontsderive), ("javashapes", corrupt_javashapes), ("todo", corrupt_todo), ("arch", corrupt_arch), ("fronts", corrupt_fronts), ("deps", corrupt_deps),
+def corrupt_session(recs):
+    i = _first(recs, lambda r: any(o["files"] for o in r["observed"]["full"]))
+    for o in recs[i]["observed"]["full"]:
+        if o["files"]:
+            o["files"][-1]["hash"] = "0000000000000000"
+            break
+    return i
+
+
+SUITES = [("session", corrupt_session), ("frontsderive", corrupt_frontsderive), ("javashapes", corrupt_javashapes), ("todo", corrupt_todo), ("arch", corrupt_arch), ("fronts", corrupt_fronts), ("deps", corrupt_deps),
           ("badsmell", corrupt_badsmell), ("testsmell", corrupt_testsmell), ("cloc", corrupt_cloc), ("stats", corrupt_stats),
           ("callgraph", corrupt_callgraph), ("springapi", corrupt_springapi), ("javamodel", corrupt_javamodel),
           ("gitlog", corrupt_gitlog), ("rename", corrupt_rename), ("unusedimport", corrupt_unusedimport)]
